@@ -116,7 +116,7 @@ func main() {
 	os.Setenv("GOSUMDB", "off")
 	os.Setenv("GOTOOLCHAIN", "local")
 	if *timeout == 0 {
-		*timeout = 10
+		*timeout = 15
 		if *tier == "thorough" {
 			*timeout = 60
 		}
